@@ -18,7 +18,8 @@ CONSTANTS MaxInv,     \* invocations per behaviour
           MaxEnv,     \* environment actions between two invocations
           MaxClock,   \* bound of the logical clock
           Js,         \* values of -j
-          Ks          \* values of -k (0 = unlimited)
+          Ks,         \* values of -k (0 = unlimited)
+          Crashes     \* TRUE: ninja may die at any point of a build (C07)
 
 RawGraphs == ndJsonDeserialize(IF "GRAPHS" \in DOMAIN IOEnv THEN IOEnv.GRAPHS ELSE "graphs.ndjson")
 Vstr(s, ver) == (IF s.gen THEN "gen" ELSE "v" \o ToString(ver)) \o (IF s.rsp THEN "|rsp" ELSE "")
@@ -54,7 +55,7 @@ Init ==
                IF f \in ToS(raw.srcs) THEN [m |-> 1, c |-> Src(f, 1)] ELSE [m |-> 0, c |-> Missing(f)]]
   /\ clock = 1 /\ blog = [x \in {} |-> 0] /\ dlog = [x \in {} |-> 0] /\ dfile = {}
   /\ L = [i \in DOMAIN raw.stmts |-> LastNone] /\ F = {}
-  /\ pc = "idle" /\ iv = Iv0 /\ ninv = 0 /\ nenv = 0 /\ kf = FALSE /\ last = [ok |-> FALSE, targets |-> <<>>]
+  /\ pc = "idle" /\ iv = Iv0 /\ ninv = 0 /\ nenv = 0 /\ kf = FALSE /\ last = [ok |-> FALSE, targets |-> <<>>, crashed |-> FALSE]
 
 \* ---------------------------------------------------------------------------------------------
 \* Plan helpers (build.cc)
@@ -147,9 +148,9 @@ Invoke(targets, j, k) ==
          v1 == Init1(v0, DOMAIN w)
      IN /\ kf' = (kf \/ (exp # expS /\ v0.skipRec # {}))
         /\ IF missing THEN /\ pc' = "idle" /\ iv' = [v0 EXCEPT !.code = 1, !.msg = "missing"]
-                           /\ last' = [ok |-> FALSE, targets |-> targets]
+                           /\ last' = [ok |-> FALSE, targets |-> targets, crashed |-> last.crashed]
            ELSE IF ~MoreToDo(v0) THEN /\ pc' = "idle" /\ iv' = [v0 EXCEPT !.msg = "nowork"]
-                                      /\ last' = [ok |-> TRUE, targets |-> targets]
+                                      /\ last' = [ok |-> TRUE, targets |-> targets, crashed |-> last.crashed]
            ELSE pc' = "build" /\ iv' = v1 /\ UNCHANGED last
   /\ ninv' = ninv + 1 /\ nenv' = 0
   /\ UNCHANGED <<raw, vers, disk, clock, blog, dlog, dfile, L, F>>
@@ -176,6 +177,21 @@ FinishSucc(v, r, cleaned) ==
       v1 == CleanAll([v EXCEPT !.running = @ \ {r}], cleaned)
   IN FinishOK([v1 EXCEPT !.doneOK = @ \cup {r.i}], r.i, Fuel)
 
+\* the effect of command r (started with content r.c) on the disk d at time c: a restat command leaves an output with
+\* the right content untouched
+WriteOuts(d0, c0, r) ==
+  LET s == St(g, r.i)
+      outs == s.outs \o s.iouts
+      RECURSIVE Write(_, _, _)
+      Write(d, k, c) == IF k > Len(outs) THEN [d |-> d, c |-> c]
+                        ELSE LET o == outs[k] IN
+                             IF Restat(s) /\ d[o].m > 0 /\ d[o].c = r.c THEN Write(d, k + 1, c)
+                             ELSE Write([d EXCEPT ![o] = [m |-> c + 1, c |-> r.c]], k + 1, c + 1)
+  IN Write(d0, 1, c0)
+\* the time recorded in the build log
+RecM(v, r, d1) == LET s == St(g, r.i)  outs == s.outs \o s.iouts IN
+                  IF (Restat(s) \/ s.gen) /\ CleanedOuts(v, r.i, [o \in DOMAIN d1 |-> d1[o].m]) = {} THEN MaxOf({r.t} \cup {d1[o].m : o \in ToS(outs)}) ELSE r.t
+
 Start(i) ==
   /\ pc = "build" /\ Budget(iv) /\ i \in iv.ready /\ clock < MaxClock
   /\ LET s == St(g, i) IN
@@ -192,20 +208,14 @@ Finish(r, ok) ==
   /\ pc = "build" /\ r \in iv.running /\ ~CanStart /\ clock + 3 < MaxClock
   /\ LET i == r.i  s == St(g, i)
          outs == s.outs \o s.iouts
-         \* the command's effect on the disk
-         RECURSIVE Write(_, _, _)
-         Write(d, k, c) == IF k > Len(outs) THEN [d |-> d, c |-> c]
-                           ELSE LET o == outs[k] IN
-                                IF Restat(s) /\ d[o].m > 0 /\ d[o].c = r.c THEN Write(d, k + 1, c)
-                                ELSE Write([d EXCEPT ![o] = [m |-> c + 1, c |-> r.c]], k + 1, c + 1)
-         wr == IF ok THEN Write(disk, 1, clock) ELSE [d |-> disk, c |-> clock]
+         wr == IF ok THEN WriteOuts(disk, clock, r) ELSE [d |-> disk, c |-> clock]
          d1 == wr.d
      IN IF ~ok
         THEN /\ iv' = FinishFail(iv, r)
              /\ F' = F \cup {i}
              /\ UNCHANGED <<disk, clock, blog, dlog, dfile, L>>
         ELSE LET cleaned == CleanedOuts(iv, i, [o \in DOMAIN d1 |-> d1[o].m])
-                 recm == IF (Restat(s) \/ s.gen) /\ cleaned = {} THEN MaxOf({r.t} \cup {d1[o].m : o \in ToS(outs)}) ELSE r.t
+                 recm == RecM(iv, r, d1)
              IN /\ iv' = FinishSucc(iv, r, cleaned)
                 /\ disk' = d1 /\ clock' = wr.c + 1
                 /\ blog' = [o \in DOMAIN blog \cup ToS(outs) |-> IF o \in ToS(outs) THEN [m |-> recm, vs |-> s.vstr] ELSE blog[o]]
@@ -223,9 +233,33 @@ Exit ==
   /\ LET ok == ~MoreToDo(iv)
          msg == ExitMsg(iv)
      IN /\ iv' = [iv EXCEPT !.code = IF ok THEN 0 ELSE (IF iv.codes = {} THEN 1 ELSE 1), !.msg = msg]
-        /\ last' = [ok |-> ok, targets |-> iv.targets]
+        /\ last' = [ok |-> ok, targets |-> iv.targets, crashed |-> last.crashed]
   /\ pc' = "idle"
   /\ UNCHANGED <<raw, vers, disk, clock, blog, dlog, dfile, L, F, ninv, nenv, kf>>
+
+\* C07: ninja dies during a build (SIGKILL, power loss).  Each command that was running either completes on its own
+\* afterwards (outputs and depfile appear, nothing is recorded) or dies too.  For one completed command `mid` whose deps go
+\* to the deps log ninja may have got as far as the build-log record (the deps-log record is written after it).
+Crash(S, mid) ==
+  /\ Crashes /\ pc = "build" /\ iv.running # {} /\ S \subseteq iv.running
+  /\ (mid = 0 \/ \E r \in S : r.i = mid /\ St(g, mid).deps \in {"gcc", "msvc"})
+  /\ clock + 3 * Cardinality(S) + 3 < MaxClock
+  /\ LET RECURSIVE WriteAll(_, _, _)
+         WriteAll(d, c, Q) == IF Q = {} THEN [d |-> d, c |-> c]
+                              ELSE LET r == CHOOSE x \in Q : \A y \in Q : x.i <= y.i
+                                       w == WriteOuts(d, c, r)
+                                   IN WriteAll(w.d, w.c, Q \ {r})
+         w == WriteAll(disk, clock, S)
+         rm == CHOOSE r \in S : r.i = mid
+         sm == St(g, mid)
+         om == ToS(sm.outs \o sm.iouts)
+     IN /\ disk' = w.d /\ clock' = w.c + 1
+        /\ dfile' = dfile \cup {r.i : r \in {x \in S : St(g, x.i).deps = "depfile"}}
+        /\ blog' = IF mid = 0 THEN blog ELSE [o \in DOMAIN blog \cup om |-> IF o \in om THEN [m |-> RecM(iv, rm, w.d), vs |-> sm.vstr] ELSE blog[o]]
+        /\ L' = IF mid = 0 THEN L ELSE [L EXCEPT ![mid] = [has |-> TRUE, vstr |-> sm.vstr, start |-> rm.t, end |-> w.c + 1, rec |-> {}, recok |-> FALSE, unsure |-> FALSE]]
+  /\ pc' = "idle" /\ iv' = [iv EXCEPT !.code = 137, !.msg = "crashed", !.running = {}]
+  /\ last' = [ok |-> FALSE, targets |-> iv.targets, crashed |-> TRUE]
+  /\ UNCHANGED <<raw, vers, dlog, F, ninv, nenv, kf>>
 
 \* environment between invocations
 Edit(f) == /\ pc = "idle" /\ ninv > 0 /\ ninv < MaxInv /\ nenv < MaxEnv /\ clock < MaxClock
@@ -252,6 +286,7 @@ Next ==
   \/ \E i \in Ids(g) : Start(i)
   \/ \E r \in iv.running : \E ok \in BOOLEAN : Finish(r, ok)
   \/ Exit
+  \/ \E S \in SUBSET iv.running : \E mid \in {0} \cup {r.i : r \in S} : Crash(S, mid)
   \/ \E f \in ToS(raw.srcs) : Edit(f) \/ Touch(f)
   \/ \E o \in AllOuts(g) : Del(o)
   \/ \E i \in Ids(g) : ChangeCmd(i)
@@ -267,14 +302,14 @@ NoStale == (Done /\ nenv = 0 /\ iv.code = 0 /\ ~kf /\ iv.msg \in {"ok", "nowork"
              LET clean == CleanContentN(g, T, L, iv.need) IN
              \A i \in {x \in iv.need : ~St(g, x).phony} : \A o \in Outs(St(g, i)) : disk[o].m > 0 /\ disk[o].c = clean[o]
 \* C03
-Minimal == (Done /\ ~kf /\ iv.msg # "missing") => IF iv.code = 0 THEN StartedSet = iv.exp ELSE StartedSet \subseteq iv.exp
+Minimal == (Done /\ ~kf /\ ~last.crashed /\ iv.msg # "missing") => IF iv.code = 0 THEN StartedSet = iv.exp ELSE StartedSet \subseteq iv.exp
 \* C04
-Ordered == (iv.x = 1 /\ ~kf) => \A k \in DOMAIN iv.started : \A p \in Producers(g, iv.T0, iv.L0, iv.started[k]) : p \in iv.exp => p \in iv.startDone[k]
+Ordered == (iv.x = 1 /\ ~kf /\ ~last.crashed) => \A k \in DOMAIN iv.started : \A p \in Producers(g, iv.T0, iv.L0, iv.started[k]) : p \in iv.exp => p \in iv.startDone[k]
 \* C05
 Contained == iv.x = 1 => /\ \A k \in DOMAIN iv.started : iv.started[k] \notin Downstream(g, iv.T0, iv.L0, iv.failed) \/ iv.started[k] \in iv.failed
                               \/ \E k2 \in DOMAIN iv.started : k2 > k /\ iv.started[k2] \in iv.failed   \* started before the failure happened
                          /\ (Done /\ iv.failed # {} => iv.code # 0)
-                         /\ (Done /\ iv.code # 0 /\ iv.msg # "missing" => iv.failed # {})
+                         /\ (Done /\ iv.code # 0 /\ iv.msg \notin {"missing", "crashed"} => iv.failed # {})
 \* C06
 Limits == iv.x = 1 => /\ Cardinality(iv.running) <= iv.j
                       /\ \A p \in {St(g, r.i).pool : r \in iv.running} : PoolDepthG(p) = 0 \/ Cardinality({r \in iv.running : St(g, r.i).pool = p}) <= PoolDepthG(p)
@@ -289,9 +324,14 @@ RefStartable(i) == /\ Pending(i) /\ ~St(g, i).phony /\ i \notin ToS(iv.started)
                    /\ LET pl == St(g, i).pool IN PoolDepthG(pl) = 0 \/ Cardinality({r \in iv.running : St(g, r.i).pool = pl}) < PoolDepthG(pl)
 NoIdle == (pc = "build" /\ iv.x = 1 /\ ~CanStart /\ iv.running # {} /\ Budget(iv) /\ Cardinality(iv.running) < iv.j /\ ~kf)
             => ~\E i \in Ids(g) : RefStartable(i)
+\* C07: whatever the crash point, a later successful build leaves the needed closure as a clean build would
+\* (this is NoStale in behaviours with Crash steps); Recovers names the states it is about
+Recovers == (Done /\ last.crashed /\ nenv = 0 /\ iv.code = 0 /\ ~kf /\ iv.msg \in {"ok", "nowork"}) =>
+              LET clean == CleanContentN(g, T, L, iv.need) IN
+              \A i \in {x \in iv.need : ~St(g, x).phony} : \A o \in Outs(St(g, i)) : disk[o].m > 0 /\ disk[o].c = clean[o]
 \* C02
 Converged == (Done /\ last.ok /\ ~kf /\ iv.msg = "nowork") => TRUE
-SecondIsNoop == (pc = "build" /\ last.ok /\ last.targets = iv.targets /\ nenv = 0 /\ ~kf /\ iv.started = <<>> /\ iv.doneOK = {}) => FALSE
+SecondIsNoop == (pc = "build" /\ ~last.crashed /\ last.ok /\ last.targets = iv.targets /\ nenv = 0 /\ ~kf /\ iv.started = <<>> /\ iv.doneOK = {}) => FALSE
 \* the known finding is a behaviour of the design (expected to be violated: TLC prints the witness)
 KfUnreachable == ~kf
 Termination == <>[](pc = "idle")
